@@ -511,7 +511,7 @@ def run_workload(task):
 
     name, wl, level, do_p4 = task
     sc = Scn(name)
-    d = os.path.join(core.scratch_root(), "c10.results.xyz-batch-1")
+    d = os.path.join(core.scratch_root(), "c10.results[1].xyz-batch-1")
     builtins._xv_draw_a = builtins._xv_draw_b = 0
     pre, log, final, earlier_rows = record(sc, d, wl)
     hpre, hfin = fsseam.snap_hash(pre), fsseam.snap_hash(final)
@@ -571,7 +571,7 @@ def sigkill_conformance(task):
     materialised crash state"""
     name, wl, which = task
     sc = Scn(name)
-    d = os.path.join(core.scratch_root(), "c10.results.xyz-batch-1")
+    d = os.path.join(core.scratch_root(), "c10.results[1].xyz-batch-1")
     import builtins
 
     builtins._xv_draw_a = builtins._xv_draw_b = 0
@@ -664,7 +664,7 @@ def replay(case):
     import builtins
 
     sc = Scn(case["scenario"])
-    d = os.path.join(core.scratch_root(), "c10.results.xyz-batch-1")
+    d = os.path.join(core.scratch_root(), "c10.results[1].xyz-batch-1")
     builtins._xv_draw_a = builtins._xv_draw_b = 0
     pre, log, final, earlier_rows = record(sc, d, case["workload"])
     vio = []
